@@ -651,7 +651,88 @@ func (fi *FuncInfo) lenOf(v ssa.Value) Lin {
 			}
 		}
 	}
+	if ld, ok := v.(*ssa.UnOp); ok && ld.Op == token.MUL {
+		if r, p, ok := pathStr(ld.X); ok {
+			return linAtom("len(" + rootName(r) + "." + p + fi.lenVersion(ld) + ")")
+		}
+	}
 	return linAtom("len(" + fi.key(v) + ")")
+}
+
+// lenVersion is the version of a load when only writers that can change the
+// LENGTH of the loaded slice count: calls to functions all of whose stores to
+// the field keep its length (grow: make([]T, len(old), c); copy) are ignored.
+func (fi *FuncInfo) lenVersion(ld *ssa.UnOp) string {
+	f := fieldOfAddr(ld.X)
+	if f == nil {
+		return fi.version(ld)
+	}
+	fi.computeWriters()
+	all := fi.writers[f]
+	var ws []ssa.Instruction
+	for _, w := range all {
+		if call, ok := w.(*ssa.Call); ok {
+			if callee := call.Call.StaticCallee(); callee != nil && fi.ctx.lenPreserving(callee, f) {
+				continue
+			}
+		}
+		ws = append(ws, w)
+	}
+	if len(ws) == len(all) {
+		return fi.version(ld)
+	}
+	saved := fi.writers[f]
+	fi.writers[f] = ws
+	v := fi.version0(ld)
+	fi.writers[f] = saved
+	return v
+}
+
+// lenPreserving: every store of fn to field f (directly; callees must not
+// write f) stores a slice whose length is the field's length at entry.
+func (c *Ctx) lenPreserving(fn *ssa.Function, f *types.Var) bool {
+	if c.lenPres == nil {
+		c.lenPres = map[[2]any]bool{}
+	}
+	key := [2]any{fn, f}
+	if r, ok := c.lenPres[key]; ok {
+		return r
+	}
+	c.lenPres[key] = false
+	fi := c.info(fn)
+	ok := true
+	n := 0
+	for _, b := range fn.Blocks {
+		for _, in := range b.Instrs {
+			switch x := in.(type) {
+			case *ssa.Store:
+				if fieldOfAddr(x.Addr) != f {
+					continue
+				}
+				n++
+				l := fi.lenOf(x.Val)
+				good := false
+				if len(l.t) == 1 && l.c == 0 {
+					for a, co := range l.t {
+						if co == 1 && strings.HasPrefix(a, "len(") && !strings.Contains(a, "@") && strings.HasSuffix(a, "."+f.Name()+")") {
+							good = true
+						}
+					}
+				}
+				if !good {
+					ok = false
+				}
+			case ssa.CallInstruction:
+				if callee := x.Common().StaticCallee(); callee != nil && callee.Blocks != nil {
+					if c.fieldWrites(callee)[f] {
+						ok = false
+					}
+				}
+			}
+		}
+	}
+	c.lenPres[key] = ok && n > 0
+	return ok && n > 0
 }
 
 // uniqueReachingStore: the load sees exactly one writer of its field, that
@@ -944,6 +1025,16 @@ func (c *Ctx) nonneg0(v ssa.Value, seen map[ssa.Value]bool, depth int) bool {
 		return true
 	}
 	switch x := v.(type) {
+	case *ssa.UnOp:
+		if x.Op == token.MUL {
+			if _, p, ok := pathStr(x.X); ok {
+				for suf, lo := range axiomLower {
+					if strings.HasSuffix("."+p, suf) && lo >= 0 {
+						return true
+					}
+				}
+			}
+		}
 	case *ssa.Convert:
 		if b, ok := x.X.Type().Underlying().(*types.Basic); ok && b.Info()&types.IsUnsigned != 0 {
 			// unsigned → signed of at least the same width keeps the value for ≤ 32-bit sources
@@ -1215,7 +1306,7 @@ func entails(facts []Fact, goal Lin, depth int) bool {
 				continue
 			}
 			rest := goal.sub(fl)
-			if len(rest.t) > len(goal.t)+1 {
+			if len(rest.t) > len(goal.t)+2 && len(rest.t) > 4 {
 				continue
 			}
 			if entails(facts, rest, depth-1) {
